@@ -9,6 +9,7 @@ THEOREMS = [
     "request_conforms", "request_body_independent_of_headers",
     "optional_container_reaches_every_member", "members_of_optional_container_omitted",
     "required_member_not_omitted",
+    "toplevel_optional_param_refuted", "guard_excludes_exactly_toplevel_quirk", "toplevel_quirk_differs",
     "children_in_schema_order", "object_node_shape", "nodes_named_and_qualified_by_declaration",
     "list_side_condition_necessary", "theorem_instance_holds",
     "wildcard_shortcut_refuted", "undeclared_key_refuted",
@@ -29,6 +30,8 @@ def envelope_body(data):
     return env, body
 
 
+K_TOP = "C01:toplevel-param-in-optional-container-sent-empty"
+TOP_ABSENT = 0.15   # share of random wrapped calls that leave a top-level optional container out (known defect)
 ABSENT = 0.5     # probability that an optional container of a nested object is left out as a whole
 
 
@@ -45,6 +48,70 @@ def pick_prefixes(rng, n):
         rng.shuffle(ks)
         return ["ns%d" % k for k in ks[:n]]
     return rng.sample(["ns0", "ns1", "ns2", "ns10", "tn", "xs", "q", "SOAP-ENC", "m"], n)
+
+
+def toplevel_optional_groups(S, t):
+    """outermost minOccurs=0 containers of the wrapper type's content (inherited first)"""
+    out = []
+
+    def walk(p):
+        if isinstance(p, F.Cont):
+            if p.opt:
+                out.append(p)
+            else:
+                for k in p.kids:
+                    walk(k)
+    for c in S.chain(t):
+        for p in c.content:
+            walk(p)
+    return out
+
+
+def members_of(p):
+    if isinstance(p, F.Elem):
+        return [p]
+    if isinstance(p, F.Cont):
+        return [e for k in p.kids for e in members_of(k)]
+    return []
+
+
+def leave_out_toplevel_group(rng, S, t, given):
+    """leave one optional container of the wrapper type out as a whole: its parameters are not passed or
+    passed as None.  True if some parameter is then of the known-defect class (not minOccurs=0 itself, not a
+    choice branch)."""
+    groups = toplevel_optional_groups(S, t)
+    if not groups:
+        return False
+    g = rng.choice(groups)
+    for e in members_of(g):
+        if rng.random() < 0.5:
+            given.pop(e.name, None)
+        else:
+            given[e.name] = None
+    names = set(e.name for e in members_of(g))
+    in_choice = set()
+
+    def walk(p, ch):
+        if isinstance(p, F.Cont):
+            for k in p.kids:
+                walk(k, ch or p.kind == "choice")
+        elif isinstance(p, F.Elem) and ch:
+            in_choice.add(p.name)
+    for c in S.chain(t):
+        for p in c.content:
+            walk(p, False)
+    return any(not e.opt and e.name not in in_choice for e in members_of(g))
+
+
+def directed_quirk_schema():
+    """wrapper type = sequence(e1, sequence minOccurs=0 (e2, e3 nillable), e4): the repro of the known defect"""
+    S = F.Schema([("urn:fam:ns0", True)])
+    inner = F.Cont("sequence", True, [F.Elem("e2", 0, True, ("b", "string")),
+                                      F.Elem("e3", 0, True, ("b", "string"), nillable=True)])
+    top = F.Cont("sequence", False, [F.Elem("e1", 0, True, ("b", "int")), inner,
+                                     F.Elem("e4", 0, True, ("b", "int"))])
+    S.types.append(F.CType("T0", 0, None, [top], []))
+    return S
 
 
 def gen_args(rng, S, t):
@@ -166,6 +233,52 @@ def run(ck):
         except Exception as e:  # noqa
             return False, repr(e)
 
+    def wrapped_case(S, client, wsdl, k, t, given, xstq):
+        """run op<k>(**given) and print the case; returns the Coq tag of the implementation's result"""
+        I = F.new_interner()
+        P = F.CoqPrinter(S, I)
+        params = [p for p, _ in S.flat(t) if isinstance(p, F.Elem)]
+        args = [given.get(p.name) for p in params]
+        client.set_options(xstq=xstq)
+        try:
+            kwargs = dict((name, F.to_python(client, S, v)) for name, v in given.items())
+        except Exception as e:  # noqa
+            kwargs = None
+            impl, raw = False, "factory: " + repr(e)
+        if kwargs is not None:
+            impl, raw = call(client, "port_document", "op%d" % k, (), kwargs,
+                             lambda body: body.elements())
+        if impl is None:
+            ci = "ITypeNotFound"
+        elif impl is False or len(impl) != 1:
+            ci = "IOther"
+        else:
+            ci = "(IOk %s)" % F.node_to_coq(S, I, impl[0])
+        wrapper = "(mkE %s %s true (TNamed %s %s) false false false None)" % (
+            cN(I("op%d" % k)), cN(1), cN(t.ns + 1), cN(I(t.name)))
+        W.append(("(mkW %s %s %s %s %s)" % (P.schema(), cbool(xstq), wrapper,
+                                             clist([P.value(v) for v in args], "value"), ci),
+                  (wsdl, "op%d" % k, dict(given), xstq, raw)))
+        ck.count("wrapped-" + ci.split(" ")[0].strip("("))
+        return args
+
+    # ---- directed instances of the known defect K_TOP (one optional block left out / given)
+    Sd = directed_quirk_schema()
+    wsdl_d = F.render_ops(Sd, [F.Op("op0", "wrapped", in_type=(0, "T0"))])
+    try:
+        client_d = U.client_from_wsdl(wsdl_d, nosend=True)
+        for j, given in enumerate([{"e1": ("leaf", 7, "7"), "e4": ("leaf", 3, "3")},
+                                   {"e1": ("leaf", 7, "7"), "e2": None, "e3": None, "e4": ("leaf", 3, "3")},
+                                   {"e1": ("leaf", 8, "8"), "e2": ("leaf", "s", "s"), "e3": ("leaf", "c", "c"),
+                                    "e4": ("leaf", 4, "4")}]):
+            wrapped_case(Sd, client_d, wsdl_d, 0, Sd.types[0], given, True)
+            ck.seen(("w-directed", j))
+            if j < 2:
+                ck.count("wrapped-toplevel-optional-container-left-out")
+    except Exception as e:  # noqa
+        ck.failing_input("C01:wsdl-load", "directed WSDL could not be loaded: %r" % (e,),
+                         {"wsdl": wsdl_d.decode("utf-8"), "error": repr(e)})
+
     for si in range(n_schemas):
         if si % 2 == 0:     # denser in nested objects with optional containers
             S = F.gen_schema(rng, markup_attr_names=True, p_nested=0.45, p_cont_opt=0.6, p_named=0.45)
@@ -202,35 +315,16 @@ def run(ck):
         # ---- wrapped
         for k, t in enumerate(S.types):
             for rep in range(per_type):
-                I = F.new_interner()
-                P = F.CoqPrinter(S, I)
                 given, args = gen_args(rng, S, t)
                 xstq = rng.random() < 0.8
-                client.set_options(xstq=xstq)
-                try:
-                    kwargs = dict((name, F.to_python(client, S, v)) for name, v in given.items())
-                except Exception as e:  # noqa
-                    kwargs = None
-                    impl, raw = False, "factory: " + repr(e)
-                if kwargs is not None:
-                    impl, raw = call(client, "port_document", "op%d" % k, (), kwargs,
-                                     lambda body: body.elements())
-                if impl is None:
-                    ci = "ITypeNotFound"
-                elif impl is False or len(impl) != 1:
-                    ci = "IOther"
-                else:
-                    ci = "(IOk %s)" % F.node_to_coq(S, I, impl[0])
-                wrapper = "(mkE %s %s true (TNamed %s %s) false false false None)" % (
-                    cN(I("op%d" % k)), cN(1), cN(t.ns + 1), cN(I(t.name)))
-                W.append(("(mkW %s %s %s %s %s)" % (P.schema(), cbool(xstq), wrapper,
-                                                     clist([P.value(v) for v in args], "value"), ci),
-                          (wsdl, "op%d" % k, given, xstq, raw)))
+                if rng.random() < TOP_ABSENT and leave_out_toplevel_group(rng, S, t, given):
+                    ck.count("wrapped-toplevel-optional-container-left-out")
+                    feats.add("toplevel-optional-container-left-out")
+                args = wrapped_case(S, client, wsdl, k, t, given, xstq)
                 for v in args:
                     features(v, feats)
                 absent_features(S, None, F.VObj((t.ns, t.name), list(given.items())), feats, 0)
                 ck.seen(("w", si, k, rep), nontrivial=any(isinstance(v, (F.VObj, list)) for v in args))
-                ck.count("wrapped-" + ci.split(" ")[0].strip("("))
         # ---- the request as a whole, with typed headers (options.soapheaders as dict / tuple)
         for k, t in enumerate(S.types):
             for rep in range(1 if ck.tier == "quick" else 3):
@@ -355,13 +449,25 @@ def run(ck):
 
     unproved = []
 
-    def judge(label, cases, case_type, agrees, spec_ok, guard, thm=None):
+    def judge(label, cases, case_type, agrees, spec_ok, guard, thm=None, known=None):
         preds = [agrees, spec_ok, "fun c => negb (%s c)" % guard]
         if thm:
             preds.append(thm)
+        if known:
+            preds.append(known[0])
         res = ck.run_cases(label, PRE, case_type, [c for c, _ in cases], preds, shard=60)
         spec_bad = set(res[spec_ok])
-        for i in sorted(spec_bad)[:3]:
+        explained = set()
+        if known:
+            # the requests that miss the reference by the known defect and by nothing else (judged in Coq)
+            explained = spec_bad - set(res[known[0]])
+            ck.extra["%s_cases_showing_%s" % (label, known[1].split(":")[1])] = len(explained)
+            for i in sorted(explained)[:2]:
+                wsdl, opname, given, xstq, raw = cases[i][1]
+                ck.failing_input(known[1], "%s(%s): %s" % (opname, show(given)[:200], known[2]),
+                                 {"wsdl": wsdl.decode("utf-8"), "operation": opname, "arguments": repr(given),
+                                  "xstq": xstq, "envelope": raw, "case": cases[i][0]})
+        for i in sorted(spec_bad - explained)[:3]:
             wsdl, opname, given, xstq, raw = cases[i][1]
             ck.failing_input("C01:request-%s" % label,
                              "%s request for %s(%s) does not conform to the schema" % (label, opname, show(given)[:300]),
@@ -379,7 +485,10 @@ def run(ck):
 
     judge("wrapped", W, "wcase", "wrapped_agrees", "wrapped_spec_ok",
           "(fun c => wrapped_guard c && args_lists_ok (w_schema c) (w_wrapper c) (w_args c))",
-          "wrapped_theorem_instance")
+          "wrapped_theorem_instance",
+          known=("wrapped_quirk_explained", K_TOP,
+                 "a top-level parameter inside an optional container of the wrapper type, left None, is sent as an "
+                 "empty element instead of being omitted"))
     judge("whole", Q, "qcase", "request_agrees", "request_spec_ok",
           "(fun c => request_guard c && args_lists_ok (q_schema c) (q_wrapper c) (q_args c))")
     judge("bare", B, "bcase", "bare_agrees", "bare_spec_ok", "bare_guard")
